@@ -6,7 +6,7 @@ from hypothesis import strategies as st
 from vlib import docs, observe, ref6, runner
 from vlib import jsonvals as jv
 from vlib.jsonvals import canon
-from vlib.values_for import values_for
+from vlib.values_for import values_for, without_one_member
 from props.c07_defaults_descriptions import exec_module
 
 from statham.schema.elements.meta import ObjectMeta
@@ -48,6 +48,8 @@ def cases(draw):
         inlined = {}
     values = draw(values_for(inlined if isinstance(inlined, dict) else {}, 5, 8))
     values += draw(st.lists(jv.json_values(max_leaves=4), min_size=1, max_size=2))
+    # every object of the document, reached through whichever reference, must still insist on its required members
+    values += [draw(without_one_member(v)) for v in values[:4] if isinstance(v, (dict, list)) and v]
     return {"files": doc["files"], "root": doc["root"], "values": values}
 
 
